@@ -295,7 +295,7 @@ struct rv_runner
         std::size_t const n = s.size();
         std::size_t const pos = n ? g.below(n + 1) : 0;
         bool const inplace1 = r.size() + 1 <= r.capacity();
-        unsigned op = static_cast<unsigned>(g.below(20));
+        unsigned op = static_cast<unsigned>(g.below(22));
         // failpoint: in one step of eight the first or second allocation fails. As for std::vector ([vector.modifiers]:
         // an exception not thrown by T or by an iterator has no effects) the vector must then be what it was before
         // the call: the shadow is only updated after the real call returned.
@@ -609,6 +609,33 @@ struct rv_runner
           // a moved-from vector may be assigned to and destroyed; reuse it through assignment
           r = RV();
           compare(r, s, "move-assign-reuse");
+        }
+        break;
+        case 20:
+        case 21:
+        {
+          // A moved-from vector is in a valid but unspecified state (as for std::vector): whatever it holds now, every
+          // operation without a precondition must work on it. The shadow takes over what the source reports, and the
+          // history goes on WITH THE MOVED-FROM OBJECT.
+          bool const by_ctor = op == 20;
+          vf::extend_case(by_ctor ? " move_ctor_keep_source" : " move_assign_keep_source");
+          if (by_ctor)
+          {
+            RV t(std::move(r));
+            compare(t, s, "move-ctor-target");
+            VF_COUNT("rv/move/ctor-source-reused");
+          }
+          else
+          {
+            RV t;
+            t = std::move(r);
+            compare(t, s, "move-assign-target");
+            VF_COUNT("rv/move/assign-source-reused");
+          }
+          if (r.capacity() < r.size() || r.capacity() > (std::size_t{1} << 40))
+            fail("moved-from/capacity", "capacity() of a moved-from vector is " + std::to_string(r.capacity()) + ", size() " + std::to_string(r.size()));
+          s.assign(r.begin(), r.end());
+          compare(r, s, "moved-from-source");
         }
         break;
         case 19:
@@ -930,6 +957,7 @@ void buffer_histories(std::uint64_t total)
 }
 
 // ------------------------------------------------------------------ read_from / io::read_chars through buffer
+#ifndef VF_FUZZ // (needs the compiled core library; the fuzz build is header-only)
 void read_chars_cases()
 {
   std::string e = "io::read_chars";
@@ -972,6 +1000,7 @@ void read_chars_cases()
     }
 }
 
+#endif
 // ------------------------------------------------------------------ read_from / read_from_opt / dynamic_array
 // A buffer made by read_from(size, f): f sees a write area of exactly `size` elements, the read area is what f
 // reports (0..size), the raw_vector made from it has exactly these elements; the ledger is balanced afterwards.
@@ -1072,7 +1101,7 @@ void read_from_cases()
 
 void body()
 {
-  for (char const *b : {"rv/alloc-failure/any", "buf/resize_write_area/allocation-failed", "buf/read_from", "buf/read_from_opt/success", "buf/read_from_opt/failure", "dynamic_array/sizes"})
+  for (char const *b : {"rv/move/ctor-source-reused", "rv/move/assign-source-reused", "rv/alloc-failure/any", "buf/resize_write_area/allocation-failed", "buf/read_from", "buf/read_from_opt/success", "buf/read_from_opt/failure", "dynamic_array/sizes"})
     vf::require_bucket(b);
   for (char const *b :
        {"rv/ctor/default", "rv/ctor/count", "rv/ctor/forward-range", "rv/ctor/input-range", "rv/ctor/initializer-list",
@@ -1099,9 +1128,26 @@ void body()
   rv_histories<pod24>(hist / 2);
   buffer_histories<int>(hist);
   buffer_histories<unsigned char>(hist / 4);
+#ifndef VF_FUZZ
   read_chars_cases();
+#endif
   read_from_cases();
 }
 }
+
+#ifdef VF_FUZZ
+// one history per libFuzzer input; the first byte selects the family, all further draws come from the input
+void vf_fuzz_one()
+{
+  switch (vf::fuzz_src().take(1) % 5)
+  {
+  case 0: rv_histories<int>(0); break;
+  case 1: rv_histories<unsigned char>(0); break;
+  case 2: rv_histories<pod24>(0); break;
+  case 3: buffer_histories<int>(0); break;
+  default: buffer_histories<unsigned char>(0); break;
+  }
+}
+#endif
 
 VF_MAIN(body)
